@@ -96,6 +96,10 @@ func HandleNoop(deps ServerDeps, conn net.Conn, tag string, state *models.Client
 
 // ===== IDLE =====
 
+// IdleTimeout is how long a client may stay inside IDLE without sending anything before it is logged off. Clients
+// re-issue IDLE at least every 29 minutes (RFC 2177); the limit equals the inactivity timeout of the command loop.
+var IdleTimeout = 30 * time.Minute
+
 func HandleIdle(deps ServerDeps, conn net.Conn, tag string, state *models.ClientState) {
 	if !state.Authenticated {
 		deps.SendResponse(conn, fmt.Sprintf("%s NO Please authenticate first", tag))
@@ -123,7 +127,16 @@ func HandleIdle(deps ServerDeps, conn net.Conn, tag string, state *models.Client
 	prevCount, _ := db.GetMessageCountPerUser(userDB, state.SelectedMailboxID)
 	prevUnseen, _ := db.GetUnseenCountPerUser(userDB, state.SelectedMailboxID)
 
+	idleSince := time.Now()
 	for {
+		// A client that stays silent for the whole inactivity period is logged off, like one that is silent
+		// between commands
+		if time.Since(idleSince) >= IdleTimeout {
+			deps.SendResponse(conn, "* BYE Autologout; idle for too long")
+			_ = conn.Close()
+			return
+		}
+
 		// Poll every 500ms for changes to ensure responsive notifications
 		time.Sleep(500 * time.Millisecond)
 
